@@ -696,6 +696,13 @@ func (f *LogFile) execSeriesEntry(e *LogEntry) {
 	//
 	// https://github.com/influxdata/influxdb/issues/9444
 	if seriesKey == nil {
+		// A tombstone must still take effect on the id sets: an older index
+		// file of this partition may still list the id, and the series set
+		// built at open (and every later compaction) would bring it back.
+		if e.Flag == LogEntrySeriesTombstoneFlag {
+			f.seriesIDSet.Remove(e.SeriesID)
+			f.tombstoneSeriesIDSet.Add(e.SeriesID)
+		}
 		return
 	}
 
